@@ -132,6 +132,46 @@ def chunks_lit(bs):
     return "[" + ",\n  ".join(hex(pack(c)) for c in cs) + "]"
 
 
+def table_rules(consts, text, nodes, children):
+    """decode the packed table into its rule set (same reading as Lemmas/PslDecode.lean), for the search
+    for a failing input when the kernel obligation `table = rule list` no longer checks"""
+    m = lambda b: (1 << b) - 1
+    out = set()
+
+    def node(i):
+        x = nodes[i]
+        length = x & m(consts["NODES_BITS_TEXT_LENGTH"])
+        x >>= consts["NODES_BITS_TEXT_LENGTH"]
+        off = x & m(consts["NODES_BITS_TEXT_OFFSET"])
+        x >>= consts["NODES_BITS_TEXT_OFFSET"]
+        x >>= consts["NODES_BITS_ICANN"]
+        c = children[x & m(consts["NODES_BITS_CHILDREN"])]
+        lo = c & m(consts["CHILDREN_BITS_LO"]); c >>= consts["CHILDREN_BITS_LO"]
+        hi = c & m(consts["CHILDREN_BITS_HI"]); c >>= consts["CHILDREN_BITS_HI"]
+        ty = c & m(consts["CHILDREN_BITS_NODE_TYPE"]); c >>= consts["CHILDREN_BITS_NODE_TYPE"]
+        wild = (c & m(consts["CHILDREN_BITS_WILDCARD"])) != 0
+        return text[off:off + length], lo, hi, ty, wild
+
+    def go(lo, hi, path, depth):
+        if depth > 12:
+            return
+        for i in range(lo, min(hi, len(nodes))):
+            label, clo, chi, ty, wild = node(i)
+            p = path + (label,)
+            if ty == consts["NODE_TYPE_NORMAL"]:
+                out.add((p, 0))
+            elif ty == consts["NODE_TYPE_EXCEPTION"]:
+                out.add((p, 1))
+            if wild:
+                out.add((p, 2))
+            go(clo, chi, p, depth + 1)
+    try:
+        go(0, consts["NUM_TLD"], (), 0)
+    except Exception:
+        pass
+    return out
+
+
 def write_if_changed(path, content):
     if os.path.exists(path) and open(path).read() == content:
         return False
@@ -177,7 +217,16 @@ def main():
     R.append("def BLOB : List Nat := %s" % chunks_lit(blob))
     R.append("end PasskeyVerif.Generated.PslRules")
     c2 = write_if_changed(os.path.join(OUT, "PslRules.lean"), "\n".join(R) + "\n")
+    # candidates for the failing-input search: rules on which the table and the .dat file differ
+    trules = table_rules(consts, text, nodes, children)
+    diff = sorted(trules.symmetric_difference(rules))[:200]
+    focus = [b".".join(reversed(labs)).decode("latin-1") for labs, _ in diff]
+    os.makedirs(os.path.join(os.path.dirname(os.path.abspath(__file__)), "..", "work"), exist_ok=True)
+    with open(os.path.join(os.path.dirname(os.path.abspath(__file__)), "..", "work", "psl_focus.txt"), "w") as f:
+        for n in focus:
+            f.write(n.encode("latin-1").hex() + "\n")
     info = {
+        "table_vs_dat_rule_differences": len(trules.symmetric_difference(rules)),
         "tld_list.rs_sha256": hashlib.sha256(open(tpath, "rb").read()).hexdigest(),
         "public_suffix_list.dat_sha256": hashlib.sha256(open(dpath, "rb").read()).hexdigest(),
         "nodes": len(nodes), "children": len(children), "text_bytes": len(text),
